@@ -5,7 +5,8 @@
              as a parameter) — where it departs from the integer ceil(log2 range) is counted, not judged
   countbits  Flags::bits_to_encode_count                               vs  clog2 (n + 1) / 24
   jumpstart  choose_run_len_jumpstart (jumpstart; weight)              vs  Train.jumpstart; weight within 1 of ceil(c(n-c)/n)
-  runlen     the run-length arm of push_pref                           vs  Train.usesRunLen (+ jumpstart)
+  runlen     the run-length arm of push_pref, observed through the public API (a chunk of `count` zeros and n - count
+             far-apart values at level 12: does the zeros' range carry a jumpstart)   vs  Train.usesRunLen (+ jumpstart)
   maxn       choose_max_n_prefixes                                     vs  Train.chooseMaxNPrefixes
 
 through the guarded hook `q_compress::verif::float_fns_script`. Arguments are boundary-dense: every power of two +-{0,1,2}
@@ -95,7 +96,8 @@ def sizing_lines(rng, quick):
         for _ in range(6 if quick else 40):
             cs.add(rng.range(t, n))
         for c in sorted(x for x in cs if 1 <= x <= n):
-            out.append(("runlen", "floatfns runlen %d %d" % (c, n)))
+            if n <= 100000:     # observed through the public API (a real chunk of n numbers is compressed)
+                out.append(("runlen", "floatfns runlen %d %d" % (c, n)))
             if 5 * c >= 4 * n and c < n:
                 out.append(("jumpstart", "floatfns jumpstart %d %d" % (c, n)))
     return out
